@@ -20,7 +20,8 @@ DeclBase(ns) == [PB(ns) EXCEPT !.subs = <<PM(ns), PL(ns), PO(ns)>>]
 DeclMid(ns)  == [PM(ns) EXCEPT !.subs = <<PL(ns)>>]
 
 BaseVs  == {ObjV("Base", <<Leaf("5"), Leaf("hello")>>), ObjV("Base", <<Nil, Leaf("x < y & z")>>)}
-MidVs   == {ObjV("Mid", <<Leaf("5"), Leaf("hello"), Leaf("true")>>), ObjV("Mid", <<Leaf("5"), Nil, Nil>>)}
+\* (the last Mid value has no member set at all: its element is empty and carries nothing but the type marker)
+MidVs   == {ObjV("Mid", <<Leaf("5"), Leaf("hello"), Leaf("true")>>), ObjV("Mid", <<Leaf("5"), Nil, Nil>>), ObjV("Mid", <<Nil, Nil, Nil>>)}
 LeafVs  == {ObjV("Leaf", <<Leaf("5"), Leaf("hello"), Leaf("false"), Leaf("2020-02-29")>>), ObjV("Leaf", <<Nil, Leaf("hello"), Nil, Leaf("1999-12-31")>>)}
 OtherVs == {ObjV("Other", <<Leaf("5"), Leaf("hello"), Leaf("1.5")>>)}
 ValuesOf(d) == IF d = "Base" THEN BaseVs \cup MidVs \cup LeafVs \cup OtherVs ELSE MidVs \cup LeafVs
